@@ -56,6 +56,15 @@ func isPanicCall(e ast.Expr) bool {
 }
 
 func (f *trFunc) stmt(s ast.Stmt, ind string) []string {
+	out := f.stmt0(s, ind)
+	switch s.(type) {
+	case *ast.ExprStmt, *ast.AssignStmt:
+		out = append(out, f.detachAfter(s, ind)...)
+	}
+	return out
+}
+
+func (f *trFunc) stmt0(s ast.Stmt, ind string) []string {
 	var out []string
 	switch s := s.(type) {
 	case *ast.EmptyStmt:
@@ -118,6 +127,9 @@ func (f *trFunc) stmt(s ast.Stmt, ind string) []string {
 	case *ast.AssignStmt:
 		return f.assignStmt(s, ind)
 	case *ast.ReturnStmt:
+		if len(f.closure) > 0 {
+			return f.closureReturn(s, ind)
+		}
 		sig := f.node.Obj.Type().(*types.Signature)
 		var rs []string
 		if len(s.Results) == sig.Results().Len() {
@@ -219,7 +231,7 @@ func (f *trFunc) stmt(s ast.Stmt, ind string) []string {
 func (f *trFunc) exprStmt(x ast.Expr, at ast.Stmt, ind string) []string {
 	var out []string
 	x = ast.Unparen(x)
-	if isMutexCall(f, x) {
+	if isMutexCall(f, x) || isLoggerCall(f, x) {
 		return nil
 	}
 	if isPanicCall(x) {
@@ -313,6 +325,20 @@ func (f *trFunc) exprStmt(x ast.Expr, at ast.Stmt, ind string) []string {
 		}
 		return out
 	}
+	if name := f.oracleFor(c); name != "" {
+		return append(out, f.flush(ind, &f.pre)...)
+	}
+	if _, ok := f.specialCall(c); ok {
+		return append(out, f.flush(ind, &f.pre)...)
+	}
+	if fl := f.flOf(c); fl != nil {
+		return f.flAlt(fl, ind, func(alt *ast.SelectorExpr, in2 string) []string {
+			return f.exprStmt(f.altCall(c, alt), at, in2)
+		})
+	}
+	if _, ok := f.oracleFnFor(c); ok {
+		return append(out, f.flush(ind, &f.pre)...)
+	}
 	f.problem(at, "call statement `%s`", f.src(x))
 	return nil
 }
@@ -346,7 +372,7 @@ func (f *trFunc) assignTo0(l ast.Expr, val string, define bool, at ast.Node, ind
 		if o := f.info.Defs[l]; o != nil && define {
 			return []string{fmt.Sprintf("%slet mut %s : %s := %s", ind, f.nameOf(o), f.varType(o), val)}
 		}
-		o := f.info.Uses[l]
+		o := f.useOf(l)
 		if v, ok := o.(*types.Var); ok && !v.IsField() && v.Pkg() != nil && v.Parent() != v.Pkg().Scope() {
 			if f.rangeVal[o] {
 				f.problem(at, "assignment to the range variable `%s`", l.Name)
@@ -434,6 +460,9 @@ func (f *trFunc) assignStmt(s *ast.AssignStmt, ind string) []string {
 	}
 	if a := f.aliasBind[s]; a != nil {
 		return f.aliasBinding(s, a, ind)
+	}
+	if lines, ok := f.ctrlAssign(s, define, ind); ok {
+		return lines
 	}
 	// v, ok := m[k]
 	if len(s.Lhs) == 2 && len(s.Rhs) == 1 {
@@ -852,7 +881,7 @@ func (f *trFunc) rangeMap(s *ast.RangeStmt, m *types.Map, ind string) []string {
 			valObj = f.info.Defs[id]
 		}
 	}
-	if why := f.orderDependent(s.Body, keyObj, valObj); why != "" {
+	if why := f.orderDependent(s.Body, keyObj, valObj); why != "" && !f.existsLoop(s.Body, keyObj, valObj) {
 		f.problem(s, "range over a map whose body depends on the iteration order (%s)", why)
 		return nil
 	}
